@@ -279,9 +279,53 @@ let run_vmcli uuid opt sec cmd addr sess ops =
 let text_of (l : n list) : string = String.init (List.length l) (fun i -> Char.chr (int_of_n (List.nth l i) land 255))
 let bytes_of_text (s : string) : n list = List.init (String.length s) (fun i -> n_of_int (Char.code s.[i]))
 let bit b = if b then "1" else "0"
+(* ---------- adapters: the WebSocketFramed model (Lib/WsFramed.v) message by message ----------
+   script entries: D<hex> / T<hex> data message (D- empty), P<hex> control message.
+   output = the canonical field of harness component `adapters`. *)
+let run_adapt (dec : 'st -> n list -> (('st * n list) * 'it option) res) (st0 : 'st) (show : 'it -> string) (script : string) : string =
+  let st = ref (ws_init st0) and dead = ref false in
+  let outs = List.filter_map (fun op ->
+    if op = "" then None else
+    if !dead then Some "SKIP" else
+    let arg = String.sub op 1 (String.length op - 1) in
+    let m = match op.[0] with 'P' -> WsCtl | _ -> WsData (unhex arg) in
+    let (st', items) = ws_step dec !st m in
+    st := st';
+    let its = String.concat "," (List.map show items) in
+    match st'.ws_stat with
+    | Waiting -> Some (Printf.sprintf "[%s]" its)
+    | Failed e -> dead := true; Some (Printf.sprintf "[%s] ERR %s" its (string_of_err e))
+    | Panicked -> dead := true; Some (Printf.sprintf "[%s] ERR PANIC" its)
+    | Livelock -> dead := true; Some (Printf.sprintf "[%s] ERR LIVELOCK" its)) (String.split_on_char ';' script) in
+  String.concat " | " outs ^ (if !dead then " ; DEAD" else Printf.sprintf " ; WAIT rest=%d" (List.length (ws_held (!st).ws_buf)))
+
+let run_adapt_case dk p1 p2 script =
+  match dk with
+  | "troj" ->
+    let key = trojan_key prims (unhex p1) in
+    run_adapt (fun st src -> match trojan_server_decode key st src with
+                 | Ok ((st', r), it) -> Ok ((st', r), it) | Err e -> Err e | Panic -> Panic) THeader show_inbound script
+  | "s5cr" -> run_adapt (stateless s5_command_request) () (fun (c, a) -> Printf.sprintf "%d:%s" (int_of_n c) (addr_str a)) script
+  | "vmess" ->
+    let now = n_of_int (int_of_string p1) in
+    let keys = List.map cmdkey_of_uuid (String.split_on_char ',' p2) in
+    run_adapt (fun s src -> match server_vdecode prims now keys s src with
+                 | Ok ((s', r), it) -> Ok ((s', r), it) | Err e -> Err e | Panic -> Panic) SInit show_inbound script
+  | "ss" ->
+    (* server PayloadCodec: state = (salt cache, session, cipher codec, Header/Body); an empty user manager is present *)
+    let (kind, now) = match String.split_on_char ':' p1 with [k; t] -> (k, n_of_int (int_of_string t)) | _ -> failwith "ss p1" in
+    let key = match String.split_on_char ':' p2 with [_; k] -> unhex k | _ -> failwith "ss p2" in
+    let cx = { c_kind = kind_of kind; c_key = key; c_ikeys = []; c_users = Some [] } in
+    let s0 = { s_mode = Server; s_salt = List.init 16 (fun _ -> N0); s_req_salt = None; s_user = None; s_addr = None } in
+    run_adapt (fun (((cache, s), cd), ib) src ->
+                 match server_decode prims cx now cache s cd ib src with
+                 | (cache', Ok ((((s', cd'), ib'), r), it)) -> Ok (((((cache', s'), cd'), ib'), r), it)
+                 | (_, Err e) -> Err e | (_, Panic) -> Panic) ((([], s0), codec_new), false) show_inbound script
+  | _ -> "UNKNOWN-ADAPT-DECODER " ^ dk
 
 let run_case (fields : string list) : string =
   match fields with
+  | "adapt" :: dk :: p1 :: p2 :: script :: _ -> run_adapt_case dk p1 p2 script
   | "vmbody" :: opt :: sec :: role :: sess :: ops :: _ -> run_vmbody opt sec role sess ops
   | "vmsrv" :: now :: users :: ops :: _ -> run_vmsrv now users ops
   | "vmcli" :: uuid :: opt :: sec :: cmd :: addr :: sess :: _now :: ops :: _ -> run_vmcli uuid opt sec cmd addr sess ops
